@@ -12,7 +12,7 @@ use bumpalo::Bump;
 use std::ops::Bound;
 use std::panic::{catch_unwind, AssertUnwindSafe};
 
-const CHARS: [char; 8] = ['a', 'z', 'é', 'ß', '€', '한', '😀', '\u{10FFFF}'];
+const CHARS: [char; 10] = ['a', 'z', 'é', 'ß', '\u{80}', '\u{ff}', '€', '한', '😀', '\u{10FFFF}'];
 
 type B = (u8, usize);
 fn bound(b: B) -> Bound<usize> {
@@ -187,6 +187,13 @@ fn apply_b<'b>(b: &'b Bump, s: &mut BString<'b>, op: &SOp, leaked: &mut Vec<(&'b
             use std::fmt::Write;
             let f = bumpalo::format!(in b, "{}-{:?}-{:>5}", n, t, n);
             let _ = write!(s, "{}|{}", f, t);
+            // fill characters and char arguments go through fmt::Write::write_char
+            let c = t.chars().next().unwrap_or('é');
+            let _ = write!(s, "{:é>7}|{:ß^9}|{:€<6}|{}|{:?}|{:>3}", n, n % 97, n % 5, c, c, c);
+            use std::fmt::Write as _;
+            let _ = s.write_char(c);
+            let _ = s.write_char('\u{ff}');
+            let _ = s.write_char('\u{80}');
             SRes::Text(f.as_str().to_string())
         }
         SOp::IntoBumpStr => {
@@ -338,6 +345,11 @@ fn apply_s(s: &mut String, op: &SOp) -> SRes {
             use std::fmt::Write;
             let f = format!("{}-{:?}-{:>5}", n, t, n);
             let _ = write!(s, "{}|{}", f, t);
+            let c = t.chars().next().unwrap_or('é');
+            let _ = write!(s, "{:é>7}|{:ß^9}|{:€<6}|{}|{:?}|{:>3}", n, n % 97, n % 5, c, c, c);
+            let _ = s.write_char(c);
+            let _ = s.write_char('\u{ff}');
+            let _ = s.write_char('\u{80}');
             SRes::Text(f)
         }
         SOp::IntoBumpStr => {
